@@ -1020,6 +1020,15 @@ func runC06(c *Ctx) {
 			x.loginCheck(*rec.Login)
 			return
 		}
+		var cc c06ChainCase
+		if json.Unmarshal(c.Replay, &cc) == nil && cc.Chain != "" {
+			for _, resp := range catalogue() {
+				if resp.Name == cc.Chain {
+					c06ChainRun(c, resp)
+				}
+			}
+			return
+		}
 		q, err := refFromJSON(rec.Type, rec.Ref)
 		if err != nil {
 			r.Inconclusive("bad replay: %v", err)
@@ -1063,6 +1072,7 @@ func runC06(c *Ctx) {
 	r.Count("random_batches", int64(nRandom))
 
 	c06Rewrite(c, corpus)
+	runC06Chains(c)
 
 	logins := genLoginCases(g)
 	c.parallel(len(logins), func(i int) { x.loginCheck(logins[i]) })
